@@ -169,9 +169,10 @@ pub fn run(ctx: &Ctx) -> PropReport {
     rep.assumptions.push("INTEGER.% is the truncated remainder (pinned by integer_modulus_pushes_result although the comment says floored)".into());
     rep.assumptions.push("trigonometric/exponential results: within max(4 ulp, 1e-6 relative) of the f64 evaluation".into());
     rep.assumptions.push("unrepresentable integer results and float-to-int out of range: any i32; zero divisor: operands both consumed or both intact".into());
-    let per = ctx.tier.pick(1500u64, 100_000u64);
+    let per = ctx.tier.pick(6000u64, 100_000u64);
     rep.push(run_sharded(ctx, "reference", per * NAMES.len() as u64, case_strategy, |(n, s): &(String, StateSpec)| judge(n, s), |(n, s)| case_json(n, s)));
-    rep.push(profile_diff(ctx, ctx.tier.pick(20_000, 400_000)));
+    rep.push(profile_diff(ctx, ctx.tier.pick(60_000, 400_000)));
+    rep.push(crate::props::incontext::run(ctx, ctx.tier.pick(40_000, 600_000)));
     rep
 }
 
